@@ -269,7 +269,7 @@ fn run_order_template<const N: usize>(ef: [Ent; N]) {
     core::mem::forget(obj);
 }
 
-// @harness id=c07_order_plain_3 props=C07,C05 tier=thorough cap=5400 mem=40
+// @harness id=c07_order_plain_3 props=C07,C05 tier=attempt cap=5400 mem=40
 // @desc get_fields_order / has_visible_field on every 3-layer object in which one name is present in all layers with arbitrary visibilities: the name is listed once with the resolved visibility (outermost non-default wins, all-default is default) and all views agree
 // @bound template [f v0, f v1, f v2] with the three visibilities symbolic (27 combinations in one query)
 // @funcs ObjectData::get_fields_order, ObjectData::get_visible_fields_order, ObjectData::has_visible_field
@@ -283,7 +283,7 @@ fn c07_order_plain_3() {
 }
 }
 
-// @harness id=c07_order_removed_4 props=C07,C05 tier=thorough cap=5400 mem=40
+// @harness id=c07_order_removed_4 props=C07,C05 tier=attempt cap=5400 mem=40
 // @desc get_fields_order / has_visible_field on every 4-layer object of the shape [f v0, Removed(d), f v1, f v2] with d in {1,2} and arbitrary visibilities (the shape of `objectRemoveKey(X, "f") + { f: ... }` and of `objectRemoveKey(X + Y, "f") + {...}`): layers hidden by the Removed marker do not influence the visibility of f, layers beyond it do, and manifestation (get_fields_order) agrees with std.objectHas (has_visible_field)
 // @bound template of 4 layers, 3 symbolic visibilities, symbolic marker depth in {1,2}
 // @funcs ObjectData::get_fields_order, ObjectData::get_visible_fields_order, ObjectData::has_visible_field
@@ -300,7 +300,7 @@ fn c07_order_removed_4() {
 }
 }
 
-// @harness id=c07_order_removed_top props=C07,C05 tier=thorough cap=5400 mem=40
+// @harness id=c07_order_removed_top props=C07,C05 tier=attempt cap=5400 mem=40
 // @desc get_fields_order on [Removed(2), f v1, f v2] (std.objectRemoveKey of a 2-layer object) and on [Removed(1), f v1, f v2]: the field is listed only if a layer beyond the removed range holds it
 // @bound two concrete marker depths, symbolic visibilities
 // @funcs ObjectData::get_fields_order
@@ -320,7 +320,7 @@ fn any_plain_ent() -> Ent {
     Ent { kind, depth: 0 }
 }
 
-// @harness id=c07_order_two_names props=C07,C05 tier=thorough cap=5400 mem=40
+// @harness id=c07_order_two_names props=C07,C05 tier=attempt cap=5400 mem=40
 // @desc get_fields_order on every 2-layer object where g is defined in both layers and f only in the super layer (layers store g before f), with arbitrary visibilities: both names are listed once each, in sorted order (f before g), with the resolved visibility
 // @bound 2 layers, 2 names, symbolic visibilities
 // @funcs ObjectData::get_fields_order, ObjectData::get_visible_fields_order
@@ -358,7 +358,7 @@ fn c07_order_two_names() {
 // @out evaluation of field bodies (self/super inside expressions, +: fields, object asserts): interpreter loop
 c07_lookup_harness!(c07_lookup_3, 3);
 
-// @harness id=c07_lookup_4 props=C07 tier=thorough cap=2700
+// @harness id=c07_lookup_4 props=C07 tier=attempt cap=2700
 // @desc c07_lookup_3 with 4 layers (admits nested Removed markers)
 // @bound 4 layers, 2 names
 // @funcs ObjectData::find_field, ObjectData::has_field, ObjectData::has_visible_field
@@ -394,7 +394,7 @@ fn two_layer_object<'p>(f: InternedStr<'p>, g: InternedStr<'p>) -> (ObjectData<'
     (mk_object(f, g, &ef, &eg), ef)
 }
 
-// @harness id=c07_extend_layers props=C07 tier=thorough cap=5400 mem=40
+// @harness id=c07_extend_layers props=C07 tier=attempt cap=5400 mem=40
 // @desc Program::extend_object(X, Y) (the + operator on objects) for 2-layer X and Y: the result's layer list is exactly Y.self, Y.super, X.self, X.super and every layer's entry for the name (visibility or Removed(depth)) is the source layer's. Associativity of + and the two-sided identity of {} on the layer model are corollaries: layer lists concatenate, and every observation (c07_lookup_*) is a function of the layer list only
 // @bound X and Y of 2 layers each; the name is present in each self layer with any visibility and optionally in the super layer
 // @funcs Program::extend_object, extend_object_clone_layer, extend_object_clone_field
@@ -438,7 +438,7 @@ fn c07_extend_layers() {
 }
 }
 
-// @harness id=c07_remove_key props=C07 tier=thorough cap=5400 mem=40
+// @harness id=c07_remove_key props=C07 tier=attempt cap=5400 mem=40
 // @desc std.objectRemoveKey at its Rust entry point on an arbitrary 2-layer object: afterwards the named field does not exist from the top layer (has_field(0), has_visible_field), whatever its previous visibility (hidden fields included), the original layers are kept unchanged below a Removed(2) marker
 // @bound objects of 2 layers; the name is present in the self layer with any visibility and optionally in the super layer
 // @funcs Evaluator::do_std_object_remove_key, Program::object_with_field_removed
@@ -480,7 +480,7 @@ fn c07_remove_key() {
 }
 }
 
-// @harness id=c07_object_has_ex props=C07 tier=thorough cap=5400 mem=40
+// @harness id=c07_object_has_ex props=C07 tier=attempt cap=5400 mem=40
 // @desc std.objectHasEx at its Rust entry point on an arbitrary 2-layer object and both values of inc_hidden: objectHasAll = the field exists (first visible layer), objectHas = it exists and its resolved visibility is not hidden
 // @bound objects of 2 layers; the name is present in the self layer with any visibility and optionally in the super layer
 // @funcs Evaluator::do_std_object_has_ex, ObjectData::has_field, ObjectData::has_visible_field
